@@ -9,9 +9,11 @@ BOARDS = [("bsec", [0x45, 0, 0x0D, 0x75, 0, 0x11, 0x11], 1), ("bzero", [0x45, 0,
           ("bnone", [0x45, 0, 0x0D, 0x75, 0, 0x33, 0x33], 0), ("bsec2", [0x45, 0, 0x0D, 0x75, 0, 0x44, 0x44], 1)]
 UNKNOWN_UID = [0x45, 0, 0x0D, 0x75, 0, 0x99, 0x99]
 
-def gen_case(r):
+def gen_case(r, info=None):
     """a session: boards log in at random addresses, then reports from several nodes, some under pressure"""
     ev = []; where = {}
+    if info is not None and r.chance(1, 6):
+        return gen_congested(r, info)
     order = list(range(4)); 
     for i in order:
         if r.chance(4, 5):
@@ -39,10 +41,31 @@ def gen_case(r):
     for n in {e[1] for e in ev if e[0] == "up" and e[3] == 0x8E}: ev.append(("up", n, 0, 0x8E, [0]))
     return ev, where
 
+def gen_congested(r, info):
+    """a SecAck board whose budget is exhausted (one request held), which then stalls, does not answer (the request expires),
+    reports while stalled and lifts the stall: the mirror must be on the wire in the end, exactly once"""
+    ev = [("time", 1000)]; where = {}
+    parent = r.choice([(), (1,)]); local = r.range(2, 9); n = tuple(parent) + (local,)
+    i = r.choice([k for k in range(4) if BOARDS[k][2]]); where[i] = n
+    if parent: ev.append(("up", (), r.below(256), 0x8D, [r.below(256), parent[0]] + UNKNOWN_UID))
+    ev.append(("up", parent, r.below(256), 0x8D, [r.below(256), local] + BOARDS[i][1]))
+    big = [t for t in range(1, 0x80) if 24 <= flowgen.rsize(info, t) <= 48 and flowgen.answers(info, t)]
+    ev += [("send", n, r.choice(big), [0, 0]), ("send", n, r.choice(big), [0, 0])]
+    staller = r.choice([n, n[:1]]) if parent else n
+    ev.append(("up", staller, 0, 0x8E, [1]))
+    ev.append(("time", 1000 + r.choice([3, 5, 60])))
+    for _ in range(r.range(1, 3)):
+        ev.append(("up", n, r.below(256), r.choice([0xA0, 0xA1]), [r.below(256)]))
+    ev.append(("up", staller, 0, 0x8E, [0]))
+    ev.append(("must_drain",))
+    return ev, where
+
 def script_of(cid, ev):
     L = ["case %s" % cid]
     for i, e in enumerate(ev):
         if e[0] == "up": L.append("rx " + hexs(frame(upmsg(e[1], e[2], e[3], e[4]))))
+        elif e[0] == "time": L.append("time %d" % e[1])
+        elif e[0] == "must_drain": L.append("flush")
         else:
             a = list(e[1]) + [0, 0, 0]; L.append("send %d %d %d %d %s" % (a[0], a[1], a[2], e[2], hexs(e[3])))
         L.append("mark %d" % i)
@@ -55,7 +78,8 @@ def run(ck):
     exe = vlib.build_harness(); md = vlib.build_model_driver(cdir, "_C19")
     r = Rng(ck.seed).fork("C19")
     n = 300 if quick else 6000
-    cases = [gen_case(r) for _ in range(n)]
+    info = flowgen.load_response_info(cdir)
+    cases = [gen_case(r, info) for _ in range(n)]
     dis = 0; bad = 0; evals = 0; mirrors = 0; dist = {}; samples = []
     boards_decl = "".join("board %s %d\n" % (hexs(u), s) for _, u, s in BOARDS)
     for s0 in range(0, n, 25):
@@ -108,7 +132,7 @@ def run(ck):
                     for a, q in pend.items():
                         if q:
                             bad += 1; ck.violation("mirror.missing", {"property": "C19", "events": flowgen.ev_json(ev), "impl": il, "reason": "report from SecAck board %s not mirrored immediately: %s" % (a, q)}); q.clear()
-            if any(pend.values()) and not any(x[0] == "send" for x in ev):
+            if any(pend.values()) and (not any(x[0] == "send" for x in ev) or any(x[0] == "must_drain" for x in ev)):
                 bad += 1; ck.violation("mirror.missing", {"property": "C19", "events": flowgen.ev_json(ev), "impl": il, "reason": "mirrors never sent: %s" % {str(k): v for k, v in pend.items() if v}})
             for e in ev:
                 if e[0] == "up": dist["%02x" % e[3]] = dist.get("%02x" % e[3], 0) + 1
